@@ -35,6 +35,11 @@ Theorem SRC_slice_list_rejects_small_n : forall l n fuel, n < 1 ->
 Proof. exact slice_list_src_rejects_small_n. Qed.
 Print Assumptions SRC_slice_list_rejects_small_n.
 
+Theorem SRC_slice_list_rejects_repeats : forall l n fuel, 1 <= n -> length (distinct l) <> length l ->
+  call fuel slice_list_src [VList l; VInt n] = ORaise ExAssert.
+Proof. exact slice_list_src_rejects_repeats. Qed.
+Print Assumptions SRC_slice_list_rejects_repeats.
+
 (** executable examples: the interpreter on the generated terms *)
 Example SRC_slice_list_runs :
   call 10 slice_list_src [VList [VInt 5; VInt 6; VInt 7; VInt 8; VInt 9]; VInt 2]
